@@ -716,10 +716,10 @@ PROPS["C06"] = dict(
     set=["scratch={scratch}"],
     level="exploration",
     technique="enumerated fault injection (link-time wrapping of mkstemp/ftruncate/mmap, failing the calls a plan names) over configurations, with an emulation/differential oracle and a backup-call counter; each case initialises the library in its own process",
-    level_text=("every single failing call position 0..23, every pair of positions below 14, every call of one kind, and every call from position "
-                "k on, among the mkstemp/ftruncate/mmap calls made by orc_init and by compilation, x ORC_CODE in {unset, emulate, backup, "
+    level_text=("every single failing call position 0..23, every pair of positions below 14, every call of one kind, every call from position k on, and - from position k < 12 on - every call of any subset of the five call kinds "
+                "(mkstemp, ftruncate, executable file mapping, writable file mapping, anonymous mapping), among the mkstemp/ftruncate/mmap calls made by orc_init and by compilation, x ORC_CODE in {unset, emulate, backup, "
                 "debug, backup+emulate} x backup function yes/no x attached/code-only executor x three programs x three environment "
-                "settings: 24300 configurations, enumerated completely in both tiers"),
+                "settings: 51084 configurations, enumerated completely in both tiers"),
     level_note=("trusted base: the --wrap shim in props/c06_fallback.c (failures are injected only while the harness arms it, i.e. inside "
                 "orc_init and orc_program_compile_for_target), orc_executor_emulate on a separately built program as the reference, plus a C "
                 "loop for the addw program; positions beyond the calls actually made are no-ops (counted as plan without injection)"),
